@@ -305,6 +305,16 @@ func weirdBodies(r *Rng, q *Req) []J {
 		b["biases"] = []interface{}{J{"name": "criteriaOmission", "props": J{"ratio": 0.5, "min": "one"}}}
 	})
 	mk(func(b J) { b["biasApplyRandomSeed"] = 9.3e18 })
+	mk(func(b J) { // an alternative with a value for a criterion nobody declared (owa / Choquet fail while scoring it)
+		if ka, ok := b["knownAlternatives"].([]interface{}); ok {
+			for _, a := range ka {
+				if cr, ok := a.(map[string]interface{})["criteria"].(map[string]interface{}); ok {
+					cr["zz_colour"] = 1
+				}
+			}
+		}
+		delete(b, "biases")
+	})
 	mk(func(b J) { // extreme values
 		for _, a := range b["knownAlternatives"].([]interface{}) {
 			for k := range a.(map[string]interface{})["criteria"].(map[string]interface{}) {
@@ -535,7 +545,7 @@ func init() {
 				}
 			}
 			// the base request must be valid: asked through the server (never replayed in-process first)
-			bst, _, berr := s.post(q.JSON())
+			bst, bbody, berr := s.post(q.JSON())
 			if berr != nil || !s.alive() {
 				m := Meta{Case: c, Stage: "valid:answered", Input: J{"request": q.Body, "preceding_request_bodies_oldest_first": append([]string{}, history...), "server_stderr_tail": s.stderrTail(3000)}, Key: string(q.JSON())}
 				o.Oracle(m, false, "a generated request got no answer or the server stopped answering after it")
@@ -547,6 +557,12 @@ func init() {
 				continue
 			}
 			if bst != 200 {
+				// a generated request may be rejected for a reason the generator does not foresee, but never because the
+				// decision it produced contains NaN/Inf (unless an exponential gain/loss function is configured)
+				if strings.Contains(string(bbody), "unsupported value") && !strings.Contains(string(q.JSON()), "expFromZero") {
+					m := Meta{Case: c, Stage: "valid:finite", Input: J{"request": q.Body}, Key: "nf" + string(q.JSON()), GoOut: truncate(string(bbody), 300)}
+					o.Oracle(m, false, "a valid request was answered 400 because the decision contains a non-finite number")
+				}
 				continue
 			}
 			// valid request
